@@ -7,7 +7,8 @@ import re
 TOKMAPS = [
     {'a': 'a', 'b': 'b', '1': '1', '2': '2', ' ': ' ', 'R': '#RM#', 'I': '@IG@'},
     {'a': 'é', 'b': 'ü', '1': '7', '2': '٣', ' ': '\t', 'R': '«RM»', 'I': '≈IG≈'},
-    {'a': 'k', 'b': 'x', '1': '0', '2': '9', ' ': '  ', 'R': '--', 'I': '%%'},
+    # (the ignore marker of this variant reads differently as a regular expression: substrings are literal)
+    {'a': 'k', 'b': 'x', '1': '0', '2': '9', ' ': '  ', 'R': '--', 'I': '$IG$ (c)'},
 ]
 PATTERN = r'\d+'
 NOPTS = 256
